@@ -27,6 +27,13 @@ def _impl():
     return impl
 
 
+def not_ok(r, expected):
+    """verdict for a call that did not return: a Python exception on a valid case, or an interpreter crash"""
+    if r[0] == "crash":
+        return {"expected": cc.CRASH_EXPECTED, "observed": r[1], "note": r[1]}
+    return {"expected": expected, "observed": "raises " + str(r[1]), "note": "%s: raises %s" % (expected, r[1])}
+
+
 def fd_eps(op):
     return 0.25 if op.startswith("max") else 1.0
 
@@ -44,7 +51,7 @@ def backward_cases(ctx, n2=None):
             data = "distinct"
             if op.startswith("max") and gi % 4 == 0:
                 data = "ints"            # repeated values: ties inside windows
-            P = cc.make_payload(rng, op, g, bias=(k % 2 == 0), form="tuple" if k % 3 else "int", data=data, layout=("C", "F", "C", "S")[gi % 4])
+            P = cc.make_payload(rng, op, g, bias=(k % 2 == 0), form="tuple" if k % 3 else "int", data=data, layout=cc.LAYOUTS[gi % 8])
             if P["form"] == "int" and (g["kH"], g["sH"], g["pH"], g["dH"]) != (g["kW"], g["sW"], g["pW"], g["dW"]):
                 P["form"] = "tuple"
             cases.append((P, (op,) + cc.descr2(g), cc.nontrivial2(g), data))
@@ -52,7 +59,7 @@ def backward_cases(ctx, n2=None):
         for op in OPS1:
             k += 1
             data = "ints" if (op.startswith("max") and gi % 4 == 0) else "distinct"
-            P = cc.make_payload(rng, op, g, bias=(k % 2 == 0), data=data, layout=("C", "F", "C", "S")[gi % 4])
+            P = cc.make_payload(rng, op, g, bias=(k % 2 == 0), data=data, layout=cc.LAYOUTS[gi % 8])
             cases.append((P, (op, g["k"], g["s"], g["p"], g["d"], g["W"]), cc.nontrivial1(g), data))
     return cases, len(g2), len(g1)
 
@@ -97,13 +104,13 @@ def run_part_c02(ctx):
         r = cc.call(cc.run_impl, P)
         if r[0] != "ok":
             terms.append("false"); payloads.append(P); descr.add(d)
-            verdicts.append((len(terms) - 1, {"expected": "forward accepted", "observed": "raises " + r[1], "note": "forward raised on a valid geometry"}))
+            verdicts.append((len(terms) - 1, not_ok(r, "forward accepted on a valid geometry")))
             continue
         cc.add_upstream(rng, P, r[1]["out"].shape)
         rb = cc.call(cc.run_impl, P, True)
         if rb[0] != "ok":
             terms.append("false"); payloads.append(P); descr.add(d)
-            verdicts.append((len(terms) - 1, {"expected": "backward(g) completes", "observed": "raises " + rb[1], "note": "backward raised"}))
+            verdicts.append((len(terms) - 1, not_ok(rb, "backward(g) completes")))
             continue
         grads = rb[1]["grads"]
         # the forward result is part of the case: the backward kernels are the VJP of the *modelled* forward
@@ -165,7 +172,7 @@ def compose_conv(P, backward):
     np, NF, sg = impl.np, impl.NF, impl.synapgrad
     g = P["g"]
     ks, st, pd, dl = cc.geo_args(P)
-    x, w = cc.T(P["x"], backward), cc.T(P["w"], backward)
+    x, w = cc.T(P["x"], backward, P.get("layout", "C")), cc.T(P["w"], backward)
     b = cc.T(P["b"], backward) if P.get("b") is not None else None
     Co = w.shape[0]
     U = NF.unfold(x, ks, dl, st, pd)                      # (N, R, L)
@@ -189,7 +196,7 @@ def compose_pool(P, backward):
     np, NF, sg = impl.np, impl.NF, impl.synapgrad
     g = P["g"]
     ks, st, pd, dl = cc.geo_args(P)
-    x = cc.T(P["x"], backward)
+    x = cc.T(P["x"], backward, P.get("layout", "C"))
     ismax = P["op"].startswith("max")
     U = NF.unfold(x, ks, dl, st, pd, -np.inf if ismax else 0)
     K = g["kH"] * g["kW"]
@@ -239,7 +246,7 @@ def two_branch(P, f):
     """y1 = f(x1), y2 = f(x2) with shared weights, both forwards first, then y1.backward(up1), y2.backward(up2)"""
     impl = _impl()
     np, sg = impl.np, impl.synapgrad
-    x1, x2 = cc.T(P["x"], True), cc.T(P["x2"], True)
+    x1, x2 = cc.T(P["x"], True, P.get("layout", "C")), cc.T(P["x2"], True, P.get("layout", "C"))
     w = cc.T(P["w"], True) if "w" in P else None
     b = cc.T(P["b"], True) if P.get("b") is not None else None
     y1 = f(P, x1, w, b)
@@ -277,7 +284,7 @@ def two_branch_payloads(ctx, ops, n):
     rng.shuffle(g2); rng.shuffle(g1)
     for op in ops:
         for g in (g2 if cc.is2d(op) else g1)[:n]:
-            P = cc.make_payload(rng, op, g, bias=True, data="distinct")
+            P = cc.make_payload(rng, op, g, bias=True, data="distinct", layout=cc.LAYOUTS[len(res) % 8])
             P["x2"] = cc.make_payload(rng, op, g, bias=True, data="distinct")["x"]
             res.append(P)
     return res
@@ -308,13 +315,15 @@ def run_two_branch(ctx, pid):
     for P in payloads:
         r0 = cc.call(cc.run_impl, P)
         if r0[0] != "ok":
+            terms.append("false"); kept.append(P)
+            verdicts.append((len(kept) - 1, not_ok(r0, "forward accepted on a valid geometry")))
             continue
         cc.add_upstream(rng, P, r0[1]["out"].shape)
         P["up2"] = cc.distinct_ints(rng, r0[1]["out"].shape).tolist()
         rf = cc.call(two_branch, P, fused_t)
         if rf[0] != "ok":
             terms.append("false"); kept.append(P)
-            verdicts.append((len(kept) - 1, {"expected": "two applications then two backward passes complete", "observed": "raises " + rf[1], "note": "raised"}))
+            verdicts.append((len(kept) - 1, not_ok(rf, "two applications then two backward passes complete")))
             continue
         if pid == "C02":
             terms.append(two_branch_term(P, rf[1]["grads"])); kept.append(P)
@@ -328,7 +337,7 @@ def run_two_branch(ctx, pid):
             rc = cc.call(two_branch, P, composed_t)
             if rc[0] != "ok":
                 terms.append("false"); kept.append(P)
-                verdicts.append((len(kept) - 1, {"expected": "composition defined", "observed": "raises " + rc[1], "note": "one side raises"}))
+                verdicts.append((len(kept) - 1, not_ok(rc, "composition defined")))
                 continue
             terms.append(two_branch_term(P, rc[1]["grads"])); kept.append(P)
             diff = None
@@ -363,11 +372,13 @@ def run_part_c14(ctx):
     for g in g2:
         for op in ("conv2d", "max_pool2d", "avg_pool2d"):
             k += 1
-            P = cc.make_payload(rng, op, g, bias=(k % 2 == 0), form="int" if k % 2 else "tuple", data="distinct")
+            P = cc.make_payload(rng, op, g, bias=(k % 2 == 0), form="int" if k % 2 else "tuple", data="distinct", layout=cc.LAYOUTS[(k // 3) % 8])
             d = (op,) + cc.descr2(g)
             comp = compose_conv if op == "conv2d" else compose_pool
             rf = cc.call(cc.run_impl, P)
             if rf[0] != "ok":
+                terms.append("false"); payloads.append(P); descr.add(d)
+                verdicts.append((len(terms) - 1, not_ok(rf, "forward accepted on a valid geometry")))
                 continue
             cc.add_upstream(rng, P, rf[1]["out"].shape)
             rf = cc.call(cc.run_impl, P, True)
@@ -375,8 +386,12 @@ def run_part_c14(ctx):
             G = cc.geom2_coq(g)
             if rf[0] != "ok" or rc[0] != "ok":
                 terms.append("false"); payloads.append(P); descr.add(d)
-                verdicts.append((len(terms) - 1, {"expected": "both sides of the identity are defined", "observed": {"fused": rf[0] if rf[0] != "ok" else "ok", "composition": rc[1] if rc[0] != "ok" else "ok"},
-                                                  "note": "one side raises"}))
+                bad_r = rf if rf[0] != "ok" else rc
+                v = not_ok(bad_r, "both sides of the identity are defined")
+                if bad_r[0] != "crash":
+                    v["observed"] = {"fused": rf[1] if rf[0] != "ok" else "ok", "composition": rc[1] if rc[0] != "ok" else "ok"}
+                    v["note"] = "one side raises"
+                verdicts.append((len(terms) - 1, v))
                 continue
             fo, co = rf[1]["out"], rc[1]["out"]
             if op == "conv2d":
